@@ -104,6 +104,11 @@ unsafe impl GlobalAlloc for Counting {
     }
 }
 
+/// Live bytes allocated by this thread and not yet freed.
+pub fn live() -> i64 {
+    CUR.with(|c| c.get())
+}
+
 /// Start a measurement window on this thread: peak := current, biggest := 0.
 pub struct Window {
     start_cur: i64,
